@@ -210,7 +210,11 @@ impl Screen {
     /// Generate a screened text (falls back to a trivially safe file after 20 rejections).
     pub fn gen_text(&mut self, rng: &mut Rng) -> String {
         for _ in 0..20 {
-            let t = render(&gen_spec(rng));
+            let mut t = render(&gen_spec(rng));
+            // occasionally Windows line ends
+            if rng.chance(1, 12) {
+                t = t.replace('\n', "\r\n");
+            }
             if self.ok(&t) {
                 return t;
             }
